@@ -678,8 +678,13 @@ class RefParser:
                     if s.title == title:
                         idx = k
                         break
+                    # "configuration file is case insensitive": under CFGF_NOCASE a title that differs
+                    # only in letter case names the same instance (ASCII letters only)
                     if sec.nocase and s.title is not None and s.title.lower() == title.lower():
-                        raise _Stop(UNSPEC, name_i, 'titles differing in case only')
+                        if any(c > 127 for c in s.title + title):
+                            raise _Stop(UNSPEC, name_i, 'case of non-ASCII titles')
+                        idx = k
+                        break
                 if idx is not None:
                     if d.has('U'):
                         raise _Stop(REJECT, brace_i, 'duplicate title')
@@ -814,6 +819,8 @@ def tokens_from_words(words):
             out.append(Tok(w))
         elif w == '+=':
             out.append(Tok('+'))
+        elif isinstance(w, str) and (w.startswith('#') or w.startswith('//') or w.startswith('/*')):
+            out.append(Tok('C', w.strip('#/* \n').encode('latin-1')))     # a comment word (C07 alphabets)
         else:
             out.append(Tok('S', w.encode('latin-1') if isinstance(w, str) else w))
     return out
